@@ -205,7 +205,7 @@ def check_raw5(case):
 
 
 def check_case(case):
-    return {'codec': check_codec, 'addr': check_addr, 'data': check_data, 'raw5': check_raw5}[case['kind']](case)
+    return {'codec': check_codec, 'addr': check_addr, 'data': check_data, 'raw5': check_raw5, 'anystring': check_anystring}[case['kind']](case)
 
 
 # ------------------------------------------------------------------ strategies / enumerations
@@ -317,5 +317,40 @@ def t_all_doubles(ctx):
     ctx.bulk(n, n, {'sub2-exhaustive': n}, None, 'every double substitution in the data part of 8 addresses' if ctx.shard == 0 else None)
 
 
+def check_anystring(case):
+    """any string under any expected prefix: library verdict == independent BIP173 decoder"""
+    got = cmp_decode(case['hrp'], case['s'], tag='anystring')
+    return {'nt': got is not None or ('1' in case['s'] and len(case['s']) > 8), 'evals': 1, 'cls': ['anystring:' + ('acc' if got else 'rej')]}
+
+
+def fuzz_decode(data):
+    """bytes -> (expected prefix, string): either free text over the bech32 charset + specials, or a VALID address with byte-driven edits"""
+    d = data + bytes(6)
+    hrp = ['bc', 'tb', 'bcrt', 'a1b'][d[0] % 4]
+    alphabet = CH + '1bio!Q~ '
+    if d[1] & 1:
+        return {'kind': 'anystring', 'hrp': hrp, 's': ''.join(alphabet[b % len(alphabet)] for b in data[2:100])}
+    L = [20, 32, 2, 40, 21][d[2] % 5]
+    ver = d[3] % 17
+    prog = (data[6:6 + L] + bytes(L))[:L]
+    s = R.encode(hrp, ver, prog)
+    edits = data[6 + L:6 + L + 8]
+    t = list(s)
+    for k in range(0, len(edits) - 1, 2):
+        i = edits[k] % len(t)
+        t[i] = alphabet[edits[k + 1] % len(alphabet)]
+    if d[1] & 2:
+        t = [c.upper() for c in t]
+    return {'kind': 'anystring', 'hrp': hrp, 's': ''.join(t)}
+
+
+def t_fuzz(ctx):
+    from .. import fuzzdrv
+    seeds = [b'', bytes([0, 0, 0, 0, 0, 0]) + bytes(20), bytes([1, 2, 1, 0, 0, 0]) + bytes(range(32)), bytes([2, 0, 3, 1, 0, 0]) + bytes(40) + b'\x05\x03',
+             b'\x00\x01' + b'bc1qw508d6qejxtdg4y5r3zarvary0c5xw7kv8f3t4'.lower()]
+    fuzzdrv.campaign(ctx, 'c11', seeds, runs=ctx.n(12000, 0), seconds=ctx.n(0, 240), max_len=160, label='bech32-fuzz')
+
+
 TASKS = [('codec_grid', (t_codec_grid, 3)), ('faults', (t_faults, 9)), ('codec_random', (t_codec_random, 2)), ('raw5', (t_raw5, 2)),
-         ('all_doubles', (t_all_doubles, lambda tier: 1 if tier == 'quick' else 16))]
+         ('all_doubles', (t_all_doubles, lambda tier: 1 if tier == 'quick' else 16)),
+         ('fuzz', (t_fuzz, lambda tier: 1 if tier == 'quick' else 4))]
